@@ -28,7 +28,7 @@ From ClapModel Require Import Complete.EngineAccept Complete.EngineFuel Complete
 From ClapModel Require ParseProofs.Chain ParseProofs.ActionsTop.
 From ClapModel Require Import Complete.EngineLine Complete.EnginePositional.
 From ClapModel Require ParseProofs.ChainWide.
-From ClapModel Require Import Complete.EngineItems Complete.EngineWide Complete.EngineHidden Complete.EngineOrder.
+From ClapModel Require Import Complete.EngineItems Complete.EngineWide Complete.EngineHidden Complete.EngineOrder Complete.EngineOptState Complete.EngineTerm Complete.EngineEscape.
 From Coq Require Import Permutation Sorted.
 From ClapModel Require Gen.EngineSites.
 From Coq Require Import ZArith.
@@ -441,17 +441,35 @@ Theorem C18_line_classes_decidable :
 Proof. exact line_classes_decidable. Qed.
 Print Assumptions C18_line_classes_decidable.
 
-(** class boundary [require_equals] (the engine has no model of it): `p --opt <TAB>`, `--opt` = Set, 0..=1 values,
-    require_equals, possible value `va`: the engine stands in [Opt], offers `va`, and the completed line
-    `p --opt va` is rejected by the parser model with UnknownArgument (same on the real crate, see notes) *)
-Theorem C18_require_equals_refuted : exists tbl c0 bin line cd,
-  (exists m, parse_top c0 (bin :: line) = OOk m) /\
-  (exists b cur a, build_full (build_fuel c0) c0 = BOk b /\
-     start_walk b (bin :: line ++ [[]]) (N.of_nat (S (length line))) = WAt [] cur 1 (Opt a 1) false true /\ a_req_eq a = true) /\
-  (exists l, complete_model tbl c0 (bin :: line ++ [[]]) (N.of_nat (S (length line))) = COk l /\ In cd l) /\
-  (exists e, parse_top c0 (bin :: line ++ [cd_value cd]) = OErr e /\ e_kind e = EUnknownArgument).
-Proof. exact require_equals_refuted. Qed.
-Print Assumptions C18_require_equals_refuted.
+(** [require_equals], finding C18-require-equals, BEFORE / AFTER the repair (docs/pending/engine_require_equals_fix.diff):
+    `p(--pf; --opt[=<v>] 0..=1 values, require_equals, possible value `va`) -> sub(--so)`.  For the parser `--opt` without `=` is a complete
+    occurrence: `p --opt sub` is accepted at `sub`.  Before: the engine waited for a value behind `--opt` - `p --opt <TAB>` offered `va`
+    (`p --opt va`: InvalidSubcommand) and behind `p --opt sub` it stood at `p` and offered `--pf` (`p --opt sub --pf`: UnknownArgument).
+    After: [ValueDone] behind `--opt`; behind `p --opt sub` the engine is at `sub`, offers `--so`, not `--pf` (same on the real crate) *)
+Theorem C18_require_equals_before_after :
+  (* the parser *)
+  ReqEq.chain_of (parse_top ReqEq.c0 [[112]; ReqEq.dd ReqEq.w_opt]) = Some [] /\
+  ReqEq.chain_of (parse_top ReqEq.c0 [[112]; ReqEq.dd ReqEq.w_opt; ReqEq.w_sub]) = Some [ReqEq.w_sub] /\
+  ReqEq.kind_of (parse_top ReqEq.c0 [[112]; ReqEq.dd ReqEq.w_opt; ReqEq.w_va]) = Some EInvalidSubcommand /\
+  ReqEq.kind_of (parse_top ReqEq.c0 [[112]; ReqEq.dd ReqEq.w_opt; ReqEq.w_sub; ReqEq.dd ReqEq.w_pf]) = Some EUnknownArgument /\
+  ReqEq.chain_of (parse_top ReqEq.c0 [[112]; ReqEq.dd ReqEq.w_opt; ReqEq.w_sub; ReqEq.dd ReqEq.w_so]) = Some [ReqEq.w_sub] /\
+  (* before *)
+  ReqEq.walk_at_before [[112]; ReqEq.dd ReqEq.w_opt; []] 2 = Some ([112], 1) /\
+  ReqEq.has_cand ReqEq.w_va None (complete_model_before_reqfix ReqEq.tbl ReqEq.c0 [[112]; ReqEq.dd ReqEq.w_opt; []] 2) = true /\
+  ReqEq.walk_at_before [[112]; ReqEq.dd ReqEq.w_opt; ReqEq.w_sub; [45; 45]] 3 = Some ([112], 0) /\
+  ReqEq.has_cand (ReqEq.dd ReqEq.w_pf) (Some (IdArg ReqEq.w_pf))
+    (complete_model_before_reqfix ReqEq.tbl ReqEq.c0 [[112]; ReqEq.dd ReqEq.w_opt; ReqEq.w_sub; [45; 45]] 3) = true /\
+  (* after *)
+  ReqEq.walk_at [[112]; ReqEq.dd ReqEq.w_opt; []] 2 = Some ([112], 0) /\
+  ReqEq.has_cand ReqEq.w_va None (complete_model ReqEq.tbl ReqEq.c0 [[112]; ReqEq.dd ReqEq.w_opt; []] 2) = false /\
+  ReqEq.has_cand ReqEq.w_sub (Some (IdCmd ReqEq.w_sub)) (complete_model ReqEq.tbl ReqEq.c0 [[112]; ReqEq.dd ReqEq.w_opt; []] 2) = true /\
+  ReqEq.walk_at [[112]; ReqEq.dd ReqEq.w_opt; ReqEq.w_sub; [45; 45]] 3 = Some (ReqEq.w_sub, 0) /\
+  ReqEq.has_cand (ReqEq.dd ReqEq.w_pf) (Some (IdArg ReqEq.w_pf))
+    (complete_model ReqEq.tbl ReqEq.c0 [[112]; ReqEq.dd ReqEq.w_opt; ReqEq.w_sub; [45; 45]] 3) = false /\
+  ReqEq.has_cand (ReqEq.dd ReqEq.w_so) (Some (IdArg ReqEq.w_so))
+    (complete_model ReqEq.tbl ReqEq.c0 [[112]; ReqEq.dd ReqEq.w_opt; ReqEq.w_sub; [45; 45]] 3) = true.
+Proof. exact require_equals_before_after. Qed.
+Print Assumptions C18_require_equals_before_after.
 
 (** C18_complete_options needs its hypothesis [a_long a <> None]: a VISIBLE alias of an option without long name
     (a key of the parser) extends the word `--`, yet no candidate carries the option's id
@@ -548,7 +566,7 @@ Theorem C18_escaped_step : forall arg cur pi st vaf,
   shadow_step arg cur pi true st vaf =
   match (if try_sub cur st && negb (is_set s_args_negate_subs cur && vaf) && utf8_valid arg then find_subcommand cur arg else None) with
   | Some next => SNext next 1 true ValueDone false
-  | None => match parse_positional cur pi true st with
+  | None => match parse_positional cur pi true st arg with
             | Some (st', pi') => SNext cur pi' true st' true
             | None => SPanic 673
             end
@@ -557,9 +575,9 @@ Proof. exact escaped_step. Qed.
 Print Assumptions C18_escaped_step.
 
 (** ... and a counted value leaves the state [Pos], never [ValueDone] *)
-Theorem C18_escaped_positional_state : forall cur pi st st' pi',
+Theorem C18_escaped_positional_state : forall cur pi st w st' pi',
   (match st with Opt _ _ => False | _ => True end) ->
-  parse_positional cur pi true st = Some (st', pi') -> exists i n, st' = Pos i n.
+  parse_positional cur pi true st w = Some (st', pi') -> exists i n, st' = Pos i n.
 Proof. exact escaped_positional_state. Qed.
 Print Assumptions C18_escaped_positional_state.
 
@@ -576,13 +594,18 @@ Print Assumptions C18_escape_only_positionals_refuted.
 
     [item18]: C09's option items ([Chain.item]: `--flag`, `--opt=v`, `--opt v`, `-abc`, `-ov`, `-o v`) plus `-o=v` and
     multi-valued options `--opt v1 .. vk` / `-o v1 .. vk` with [k] = the maximum of the range, the values plain words that
-    are neither subcommand names nor the option's terminator ([value_tok]).  [pitems18 c pos pre F pos']: items and values
-    of single-valued positionals; [pos]/[pos'] the positional counter before and after.
-    [body18 pc pre F pst pos est]: [pre] are the arguments of one level - options and values of single-valued
+    are neither subcommand names nor the option's terminator ([value_tok]), and (round 5) `--opt v1 .. vj ;` / `-o v1 .. vj ;`
+    with [j] below the maximum followed by the option's value TERMINATOR, or - on a level without hyphen-accepting arguments -
+    by another item ([i18_long_partial] / [i18_short_partial]: a partially filled occurrence ends at a word that looks like an
+    option).  [pitems18 c pos pre F pos']: items, values
+    of single-valued positionals and (round 5) the terminator of the positional at the counter, alone ([p18_term]) or behind
+    [k] values of that multi-valued positional ([p18_multi_term], [k] below the engine's [eng_num_args]); [pos]/[pos'] the
+    positional counter before and after.
+    [body18 pc pre F pst pos est epos]: [pre] are the arguments of one level - options and values of single-valued
     positionals ([pitems18], the counter starts at 1), optionally followed by [k] values of a multi-valued
     positional [a] ([ChainWide.multi_vals], [k] below the engine's [eng_num_args a]); [F] is the parser's state
-    transformer, [pst]/[pos] the parser's loop state and positional counter behind them, [est] the engine's state:
-    [ValueDone] resp. [Pos pos k].  [pline pc line pcf posf vf]: `body_0 n_1 body_1 ... n_k pre_k`, every [n_i] a
+    transformer, [pst]/[pos] the parser's loop state and positional counter behind them, [est]/[epos] the engine's state and
+    [pos_index]: [ValueDone] resp. [Pos pos k] at [pos], or [ValueDone] at [pos + 1] behind the last value a bounded positional admits.  [pline pc line pcf posf vf]: `body_0 n_1 body_1 ... n_k pre_k`, every [n_i] a
     subcommand name/alias read where the parser looks for one ([may_select]: between arguments, or behind the values
     of a multi-valued positional if THE LEVEL REACHED sets [subcommand_precedence_over_arg]); a level with
     [args_conflicts_with_subcommands] is left only before any of its own arguments (behind one, a subcommand NAME is a
@@ -611,18 +634,181 @@ Theorem C18_values_agree : forall pc cur tok f a r vs, elevel pc cur ->
 Proof. exact values_agree. Qed.
 Print Assumptions C18_values_agree.
 
-(** a value TERMINATOR is unknown to the engine: `p --opt a ; <TAB>` (`--opt` takes 1..3 values, terminator `;`): the engine
-    stands in [Opt _ 3], the parser has closed the occurrence; `p --opt a ; sub <TAB>`: the parser accepts the line and is at
-    `sub`, the engine took `sub` for the third value, stays at `p`, offers `--opt` of `p`, and `p --opt a ; sub --opt` is
-    rejected with UnknownArgument (same on the real crate) *)
-Theorem C18_terminator_refuted :
-  Term.walk_at ([112] :: [Term.ddopt; [97]; Term.semi] ++ [[]]) 4 = Some ([112], 3) /\
+(** VALUE TERMINATORS, finding C18-value-terminator, BEFORE / AFTER the repair (docs/pending/engine_value_terminator_fix.diff).
+    Option, `p(--opt <v>{1..3} terminator ";") -> sub(--so)`: the parser ACCEPTS `p --opt a ; sub` and is at `sub`.  Before: the
+    engine counted `;` as a value ([Opt _ 3] behind `p --opt a ;`), took `sub` for the third value, stayed at `p`, offered `--opt`
+    of `p`; `p --opt a ; sub --opt` is rejected with UnknownArgument.  After: [ValueDone] at `p` behind `;`, at `sub` behind
+    `sub`; `--so` is offered, `--opt` is not.  Positional, `p(--pf; <files>{1..} terminator ";") -> sub(--so)`, `p a ; sub`:
+    before [Pos _ 3] at `p`, `--pf` offered (UnknownArgument); after [ValueDone] at `sub`.  Same on the real crate
+    (corpus/C18/accept.value-terminator.cases) *)
+Theorem C18_terminator_before_after :
+  (* option: the parser *)
   Term.chain_of (parse_top Term.c0 ([112] :: Term.line)) = Some [Term.w_sub] /\
-  Term.walk_at ([112] :: Term.line ++ [[45; 45]]) 5 = Some ([112], 0) /\
-  Term.has_cand Term.ddopt (IdArg Term.w_opt) (complete_model [] Term.c0 ([112] :: Term.line ++ [[45; 45]]) 5) = true /\
-  Term.kind_of (parse_top Term.c0 ([112] :: Term.line ++ [Term.ddopt])) = Some EUnknownArgument.
-Proof. exact terminator_refuted. Qed.
-Print Assumptions C18_terminator_refuted.
+  Term.kind_of (parse_top Term.c0 ([112] :: Term.line ++ [Term.ddopt])) = Some EUnknownArgument /\
+  Term.chain_of (parse_top Term.c0 ([112] :: Term.line ++ [Term.dd Term.w_so])) = Some [Term.w_sub] /\
+  (* option: before *)
+  Term.walk_at_before Term.c0 ([112] :: [Term.ddopt; [97]; Term.semi] ++ [[]]) 4 = Some ([112], 3) /\
+  Term.walk_at_before Term.c0 ([112] :: Term.line ++ [[45; 45]]) 5 = Some ([112], 0) /\
+  Term.has_cand Term.ddopt (IdArg Term.w_opt) (complete_model_before_termfix [] Term.c0 ([112] :: Term.line ++ [[45; 45]]) 5) = true /\
+  (* option: after *)
+  Term.walk_at Term.c0 ([112] :: [Term.ddopt; [97]; Term.semi] ++ [[]]) 4 = Some ([112], 0) /\
+  Term.walk_at Term.c0 ([112] :: Term.line ++ [[45; 45]]) 5 = Some (Term.w_sub, 0) /\
+  Term.has_cand Term.ddopt (IdArg Term.w_opt) (complete_model [] Term.c0 ([112] :: Term.line ++ [[45; 45]]) 5) = false /\
+  Term.has_cand (Term.dd Term.w_so) (IdArg Term.w_so) (complete_model [] Term.c0 ([112] :: Term.line ++ [[45; 45]]) 5) = true /\
+  (* positional: the parser *)
+  Term.chain_of (parse_top Term.c1 ([112] :: Term.line1)) = Some [Term.w_sub] /\
+  Term.kind_of (parse_top Term.c1 ([112] :: Term.line1 ++ [Term.dd Term.w_pf])) = Some EUnknownArgument /\
+  (* positional: before *)
+  Term.walk_at_before Term.c1 ([112] :: Term.line1 ++ [[45; 45]]) 4 = Some ([112], 3) /\
+  Term.has_cand (Term.dd Term.w_pf) (IdArg Term.w_pf) (complete_model_before_termfix [] Term.c1 ([112] :: Term.line1 ++ [[45; 45]]) 4) = true /\
+  (* positional: after *)
+  Term.walk_at Term.c1 ([112] :: Term.line1 ++ [[45; 45]]) 4 = Some (Term.w_sub, 0) /\
+  Term.has_cand (Term.dd Term.w_pf) (IdArg Term.w_pf) (complete_model [] Term.c1 ([112] :: Term.line1 ++ [[45; 45]]) 4) = false /\
+  Term.has_cand (Term.dd Term.w_so) (IdArg Term.w_so) (complete_model [] Term.c1 ([112] :: Term.line1 ++ [[45; 45]]) 4) = true.
+Proof. exact terminator_before_after. Qed.
+Print Assumptions C18_terminator_before_after.
+
+(** ONE STEP ON THE TERMINATOR, both machines (repaired engine).  (1) an option [a] pending with any number of values:
+    both are back between arguments, nothing is pushed; (2) between arguments and (3) while the positional [a] at the counter
+    is being filled: both move the index / counter on and are back between arguments ([term_at]: the positional at the
+    counter, not [last], not [trailing_var_arg], no low-index multiples / [allow_missing_positional] on the level; [term_fn]:
+    the parser flushes the pending occurrence of another argument) *)
+Theorem C18_terminator_step_agreement : forall pc cur t, elevel pc cur -> ChainWide.plain_tok t ->
+  (forall a j pi evaf rest pos vaf st,
+     Chain.no_sub pc t -> find_arg pc (a_id a) = Some a -> check_terminator a t = true ->
+     shadow_step t cur pi false (Opt a j) evaf = SNext cur pi false ValueDone evaf /\
+     parse_loop pc (t :: rest) (mkL (PSOpt (a_id a)) pos vaf false) st = parse_loop pc rest (Chain.lsV pos vaf) st) /\
+  (forall a pos evaf rest st,
+     possible_subcommand pc t evaf = None -> term_at pc pos a t ->
+     shadow_step t cur pos false ValueDone evaf = SNext cur (pos + 1) false ValueDone true /\
+     parse_loop pc (t :: rest) (Chain.lsV pos evaf) st =
+     (do st' <- term_fn pc a st; parse_loop pc rest (Chain.lsV (pos + 1) true) st')) /\
+  (forall a pos k evaf rest st,
+     (is_set s_sub_precedence pc = true -> Chain.no_sub pc t) -> term_at pc pos a t ->
+     shadow_step t cur pos false (Pos pos k) evaf = SNext cur (pos + 1) false ValueDone true /\
+     parse_loop pc (t :: rest) (mkL (PSPos (a_id a)) pos evaf false) st =
+     (do st' <- term_fn pc a st; parse_loop pc rest (Chain.lsV (pos + 1) true) st')).
+Proof. exact terminator_step_agreement. Qed.
+Print Assumptions C18_terminator_step_agreement.
+
+(** A WORD THAT LOOKS LIKE AN OPTION WHILE AN OPTION IS STILL COLLECTING VALUES (partially filled occurrence): both machines
+    stand in "option [a] pending" with any number of values; no argument of the level accepts hyphen values or negative
+    numbers ([hyphen_free]); the word is lexed as an exact long key or as a non-empty short cluster ([dash_tok]).  BOTH handle it
+    exactly as between arguments - the pending occurrence ends.  (Whether it had its minimum is decided by the parser's flush in
+    the next [react]: TooFewValues-class errors, never an "unknown" one; [EngineTerm.PartialLine].)  With it the class [item18]
+    contains `--opt v1 .. vj <item>` / `-o v1 .. vj <item>` for [j] below the maximum ([i18_long_partial], [i18_short_partial]). *)
+Theorem C18_pending_option_dash_agreement : forall pc cur tok a, elevel pc cur -> hyphen_free pc ->
+  find_arg pc (a_id a) = Some a -> dash_tok pc tok ->
+  (forall k pi evaf, shadow_step tok cur pi false (Opt a k) evaf = shadow_step tok cur pi false ValueDone evaf) /\
+  (forall rest pos vaf st, fs_skip st = 0 ->
+     parse_loop pc (tok :: rest) (mkL (PSOpt (a_id a)) pos vaf false) st = parse_loop pc (tok :: rest) (Chain.lsV pos vaf) st).
+Proof. exact pending_option_dash_agreement. Qed.
+Print Assumptions C18_pending_option_dash_agreement.
+
+(** KNOWN FINDING C18-low-index-multiples (found in round 5, not repaired): the engine has no counterpart of the parser's
+    "low index multiples" correction of the positional counter.  `p(--pf; <files>.. required; <dst> required) -> sub(--so)`: the
+    parser accepts `p a b sub` (files = [a], dst = b, dispatch to `sub`: at the second-to-last counter it peeks at the next word);
+    the engine keeps filling `files` ([Pos 1 3] at `p`), offers `--pf` of `p`, and `p a b sub --pf` is UnknownArgument.  The
+    class [ChainWide.pos_plain] (no low-index multiples) of the state-agreement theorems is necessary.  Same on the real crate *)
+Theorem C18_low_index_multiples_refuted :
+  LowIndex.chain_of (parse_top LowIndex.c0 ([112] :: LowIndex.line)) = Some [LowIndex.w_sub] /\
+  LowIndex.stands LowIndex.c0 ([112] :: LowIndex.line ++ [[45; 45]]) 4 = Some ([112], 1, 3) /\
+  LowIndex.has_cand (LowIndex.ddw LowIndex.w_pf) (IdArg LowIndex.w_pf)
+    (complete_model [] LowIndex.c0 ([112] :: LowIndex.line ++ [[45; 45]]) 4) = true /\
+  LowIndex.kind_of (parse_top LowIndex.c0 ([112] :: LowIndex.line ++ [LowIndex.ddw LowIndex.w_pf])) = Some EUnknownArgument.
+Proof. exact low_index_multiples_refuted. Qed.
+Print Assumptions C18_low_index_multiples_refuted.
+
+(** KNOWN FINDINGS C18-infer-subcommands / C18-infer-long-args (found in round 5, not repaired): the engine knows neither
+    [Command::infer_subcommands] nor [Command::infer_long_args].  (1) `p(--pf; infer_subcommands) -> sub(--so)`: the parser reads `su` as
+    `sub` and accepts `p su`; the engine stays at `p`, offers `--pf`; `p su --pf` is UnknownArgument.  (2) `p(--pf; --option <v>;
+    infer_long_args) -> sub(--so)`: the parser reads `--opti` as `--option` with the value `sub` (`p --opti sub` accepted at `p`); the
+    engine does not recognise `--opti`, descends on `sub`, offers `--so`; `p --opti sub --so` is UnknownArgument.  Same on the real crate *)
+Theorem C18_inferred_names_refuted :
+  Infer.chain_of (parse_top Infer.c1 [[112]; Infer.su]) = Some [Infer.w_sub] /\
+  Infer.level_at Infer.c1 [[112]; Infer.su; [45; 45]] 2 = Some [112] /\
+  Infer.has_cand (Infer.ddw Infer.w_pf) (IdArg Infer.w_pf) (complete_model [] Infer.c1 [[112]; Infer.su; [45; 45]] 2) = true /\
+  Infer.kind_of (parse_top Infer.c1 [[112]; Infer.su; Infer.ddw Infer.w_pf]) = Some EUnknownArgument /\
+  Infer.chain_of (parse_top Infer.c2 [[112]; Infer.opti; Infer.w_sub]) = Some [] /\
+  Infer.level_at Infer.c2 [[112]; Infer.opti; Infer.w_sub; [45; 45]] 3 = Some Infer.w_sub /\
+  Infer.has_cand (Infer.ddw Infer.w_so) (IdArg Infer.w_so) (complete_model [] Infer.c2 [[112]; Infer.opti; Infer.w_sub; [45; 45]] 3) = true /\
+  Infer.kind_of (parse_top Infer.c2 [[112]; Infer.opti; Infer.w_sub; Infer.ddw Infer.w_so]) = Some EUnknownArgument.
+Proof. exact inferred_names_refuted. Qed.
+Print Assumptions C18_inferred_names_refuted.
+
+(** KNOWN FINDING C18-flag-subcommands (an observation since round 1; by the letter of the property a violation; not repaired): the engine
+    does not know flag-subcommands.  `p(--pf) -> sync(long_flag sync, short_flag S; --so)`: the parser accepts `p --sync` and `p -S`
+    (dispatch to `sync`); the engine skips the unknown flag, stays at `p`, offers `--pf`; `p --sync --pf` and `p -S --pf` are
+    UnknownArgument (same on the real crate) *)
+Theorem C18_flag_subcommands_refuted :
+  FlagSub.chain_of (parse_top FlagSub.c0 [[112]; FlagSub.ddw FlagSub.w_sync]) = Some [FlagSub.w_sync] /\
+  FlagSub.chain_of (parse_top FlagSub.c0 [[112]; [45; 83]]) = Some [FlagSub.w_sync] /\
+  FlagSub.level_at [[112]; FlagSub.ddw FlagSub.w_sync; [45; 45]] 2 = Some [112] /\
+  FlagSub.level_at [[112]; [45; 83]; [45; 45]] 2 = Some [112] /\
+  FlagSub.has_cand (FlagSub.ddw FlagSub.w_pf) (IdArg FlagSub.w_pf) (complete_model [] FlagSub.c0 [[112]; FlagSub.ddw FlagSub.w_sync; [45; 45]] 2) = true /\
+  FlagSub.has_cand (FlagSub.ddw FlagSub.w_pf) (IdArg FlagSub.w_pf) (complete_model [] FlagSub.c0 [[112]; [45; 83]; [45; 45]] 2) = true /\
+  FlagSub.kind_of (parse_top FlagSub.c0 [[112]; FlagSub.ddw FlagSub.w_sync; FlagSub.ddw FlagSub.w_pf]) = Some EUnknownArgument /\
+  FlagSub.kind_of (parse_top FlagSub.c0 [[112]; [45; 83]; FlagSub.ddw FlagSub.w_pf]) = Some EUnknownArgument.
+Proof. exact flag_subcommands_refuted. Qed.
+Print Assumptions C18_flag_subcommands_refuted.
+
+(** * Round 5: lines with the ESCAPE `--` (Complete/EngineEscape.v) - beyond the letter of the property, whose acceptance clause
+      speaks of positions "before any `--`"
+
+    [esc_level c]: no low-index multiples, no [allow_missing_positional], no [last(true)] argument.  [room c toks pos]: every word
+    of [toks] finds a positional, the counter starting at [pos] (the trailing-mode loop: the terminator of the positional at the
+    counter and a value of a single-valued positional move it on, a value of a multi-valued positional does not).
+    [escvals c pos vals pos']: values (or the terminator) of single-valued positionals, then optionally values of a multi-valued
+    positional below the engine's [num_args]; none is a subcommand name (the ENGINE still looks words up as subcommands behind
+    `--`; the parser does not). *)
+
+(** the two machines behind `--`, side by side *)
+Theorem C18_escaped_agreement : forall pc cur pos vals pos' vaf, elevel pc cur -> esc_level pc ->
+  possible_subcommand pc ESC vaf = None -> escvals pc pos vals pos' ->
+  (exists est', shadow_run (ESC :: vals) cur pos false ValueDone vaf = SNext cur pos' true est' (vaf || negb (is_nil vals)) /\
+                (vals = [] -> est' = ValueDone) /\ (vals <> [] -> exists p n, est' = Pos p n)) /\
+  (forall tail st, room pc tail pos' ->
+     parse_loop pc (ESC :: vals ++ tail) (Chain.lsV pos vaf) st =
+     parse_loop pc (vals ++ tail) (mkL PSValuesDone pos vaf true) (esc_state st) /\
+     (forall e s, parse_loop pc (ESC :: vals ++ tail) (Chain.lsV pos vaf) st = RErr e s -> reaction_error pc e) /\
+     (forall lr, parse_loop pc (ESC :: vals ++ tail) (Chain.lsV pos vaf) st = ROk lr -> exists st', lr = LDone st')).
+Proof. exact escaped_agreement. Qed.
+Print Assumptions C18_escaped_agreement.
+
+(** END TO END, parser: a line of the class [pline], then `--`, then words that all find a positional at the final level: the
+    completed line is never rejected with UnknownArgument / InvalidSubcommand - whatever the words look like *)
+Theorem C18_escaped_accepted : forall c0 bin line pcf posf vf toks e,
+  is_set s_no_binary_name c0 = false ->
+  pline (build_self (ActionsTop.with_bin c0 bin)) line pcf posf vf ->
+  esc_level pcf -> possible_subcommand pcf ESC vf = None -> room pcf toks posf ->
+  parse_top c0 (bin :: line ++ ESC :: toks) = OErr e -> ~ unknown_kind (e_kind e).
+Proof. exact escaped_accepted. Qed.
+Print Assumptions C18_escaped_accepted.
+
+(** END TO END with an escape, `line -- v1 .. vk <TAB>`: EVERY candidate the engine offers behind at least one escaped value stands
+    where a positional is left (otherwise the engine offers nothing: [C18_pos_state_none]), so the completed line is never rejected
+    as "unknown"; directly behind `--` (state [ValueDone]) that needs a positional at the counter *)
+Theorem C18_candidate_accepted_escaped : forall tbl c0 bin line vals w after l cd pcf posf vf pos' e,
+  tree_all unb c0 -> is_set s_no_binary_name c0 = false ->
+  N.of_nat (length (line ++ ESC :: vals)) + 2 <= usize_max ->
+  pline (build_self (ActionsTop.with_bin c0 bin)) line pcf posf vf ->
+  esc_level pcf -> possible_subcommand pcf ESC vf = None ->
+  escvals pcf posf vals pos' -> (vals = [] -> get_pos pcf posf <> None) ->
+  complete_model tbl c0 (bin :: (line ++ ESC :: vals) ++ w :: after) (N.of_nat (S (length (line ++ ESC :: vals)))) = COk l ->
+  In cd l ->
+  parse_top c0 (bin :: line ++ ESC :: vals ++ [cd_value cd]) = OErr e -> ~ unknown_kind (e_kind e).
+Proof. exact candidate_accepted_escaped. Qed.
+Print Assumptions C18_candidate_accepted_escaped.
+
+(** the class boundary: `p(--opt <v>) -> sub` has no positional; directly behind `--` the engine still offers `--opt` and `sub`;
+    `p -- --opt` -> InvalidSubcommand, `p -- sub` -> UnknownArgument (same on the real crate; outside the property) *)
+Theorem C18_escape_no_positional_refuted :
+  EscLine.has_cand (EscLine.ddw EscLine.w_opt) (IdArg EscLine.w_opt) (complete_model [] EscLine.ext0 [[112]; ESC; []] 2) = true /\
+  EscLine.has_cand EscLine.w_sub (IdCmd EscLine.w_sub) (complete_model [] EscLine.ext0 [[112]; ESC; []] 2) = true /\
+  EscLine.kind_of (parse_top EscLine.ext0 [[112]; ESC; EscLine.ddw EscLine.w_opt]) = Some EInvalidSubcommand /\
+  EscLine.kind_of (parse_top EscLine.ext0 [[112]; ESC; EscLine.w_sub]) = Some EUnknownArgument.
+Proof. exact escape_no_positional_refuted. Qed.
+Print Assumptions C18_escape_no_positional_refuted.
 
 (** the engine's positional lookup IS the parser's key-map lookup *)
 Theorem C18_find_pos_is_get_pos : forall c n, assert_app c = true -> find_pos c n = get_pos c n.
@@ -630,16 +816,20 @@ Proof. exact find_pos_get_pos. Qed.
 Print Assumptions C18_find_pos_is_get_pos.
 
 (** STATE AND POS_INDEX AGREEMENT on one level: behind the arguments of a level the engine stands in [est] at
-    [pos_index = pos] where the parser's token loop stands in [pst] at the positional counter [pos];
-    [ValueDone]/[PSValuesDone], or [Pos pos k]/[PSPos (a_id a)] for the same positional [a] *)
-Theorem C18_state_agreement_positionals : forall pc cur pre F pst pos est, elevel pc cur -> body18 pc pre F pst pos est ->
-  shadow_run pre cur 1 false ValueDone false = SNext cur pos false est (negb (is_nil pre)) /\
+    [pos_index = epos] where the parser's token loop stands in [pst] at the positional counter [pos];
+    [ValueDone]/[PSValuesDone] at the same index, or [Pos pos k]/[PSPos (a_id a)] for the same positional [a], or (round 5:
+    [b18_multi_max], a BOUNDED multi-valued positional with ALL the values the engine's [num_args] admits) [ValueDone] at
+    [pos + 1] where the parser is still in [PSPos (a_id a)] at [pos] *)
+Theorem C18_state_agreement_positionals : forall pc cur pre F pst pos est epos, elevel pc cur -> body18 pc pre F pst pos est epos ->
+  shadow_run pre cur 1 false ValueDone false = SNext cur epos false est (negb (is_nil pre)) /\
   (forall rest st, fs_skip st = 0 ->
      parse_loop pc (pre ++ rest) (Chain.lsV 1 false) st =
      (do st' <- F st; parse_loop pc rest (mkL pst pos (negb (is_nil pre)) false) st')) /\
   match est with
-  | ValueDone => pst = PSValuesDone
-  | Pos i k => i = pos /\ exists a, pst = PSPos (a_id a) /\ find_pos cur pos = Some a /\ get_pos pc pos = Some a /\
+  | ValueDone => (pst = PSValuesDone /\ epos = pos) \/
+                 (epos = pos + 1 /\ exists a, pst = PSPos (a_id a) /\ find_pos cur pos = Some a /\ get_pos pc pos = Some a /\
+                    a_is_multiple a = true)
+  | Pos i k => i = pos /\ epos = pos /\ exists a, pst = PSPos (a_id a) /\ find_pos cur pos = Some a /\ get_pos pc pos = Some a /\
                  a_is_multiple a = true /\ k < eng_num_args a
   | Opt _ _ => False
   end.
@@ -704,7 +894,7 @@ Theorem C18_args_conflict_levels : forall pc cur pre F pos tok sc0,
        parse_loop pc (tok :: rest) (Chain.lsV 1 false) st = ROk (LSub n' false false st rest)) /\
   (pre <> [] -> ChainWide.plain_tok tok ->
      shadow_run (pre ++ [tok]) cur 1 false ValueDone false =
-       match parse_positional cur pos false ValueDone with
+       match parse_positional cur pos false ValueDone tok with
        | Some (st, pi) => SNext cur pi false st true
        | None => SPanic 673
        end /\
